@@ -277,6 +277,11 @@ func StartServer(env *core.Env, auth bus.Authenticator, n int) (*World, error) {
 	if err != nil {
 		return nil, fmt.Errorf("listen: %v", err)
 	}
+	if k := env.C.P("stream_names", 0); k > 0 {
+		// the accepted streams present themselves the way the streams of
+		// another transport do (what a stream calls itself must not matter)
+		l = &namedListener{Listener: l, kind: k}
+	}
 	srv, err := bus.StandAloneServer(l, auth, bus.PrivateNamespace())
 	if err != nil {
 		return nil, fmt.Errorf("server: %v", err)
@@ -297,6 +302,39 @@ func StartServer(env *core.Env, auth bus.Authenticator, n int) (*World, error) {
 		}
 	}
 	return w, nil
+}
+
+// namedListener hands out the streams of the simulated network under the
+// names the streams of the other transports give themselves.
+type namedListener struct {
+	net.Listener
+	kind int
+	n    int
+}
+
+type namedStream struct {
+	net.Stream
+	name string
+}
+
+func (s namedStream) String() string { return s.name }
+
+func (l *namedListener) Accept() (net.Stream, error) {
+	s, err := l.Listener.Accept()
+	if err != nil {
+		return nil, err
+	}
+	l.n++
+	name := fmt.Sprintf("pipe://%d:%d", 10+2*l.n, 11+2*l.n) // the fd-passing transport
+	switch l.kind {
+	case 2:
+		name = "pipe://pipe" // what the in-process pipe of Server.Client() calls itself
+	case 3:
+		name = fmt.Sprintf("unix:///tmp/qi-%d.sock", l.n)
+	case 4:
+		name = fmt.Sprintf("tcps://127.0.0.1:%d", 40000+l.n)
+	}
+	return namedStream{s, name}, nil
 }
 
 // AddObject adds one more probe object to the service.
